@@ -29,6 +29,7 @@ def run(chk):
     r_ctor(chk, prog, m)
     r6(chk, prog, m)
     r7(chk, prog, m)
+    r8_wrappers(chk, prog, m)
     chk.undecided_clauses += [
         "contents of the string after arbitrary set histories (byte-level model comparison is value-level)",
         "R5 treats the inline area's capacity symbolically (>= len + 1 and >= sizeof(void*)), as established by the constructor rule",
@@ -630,3 +631,44 @@ def r7(chk, prog, m):
             else:
                 chk.proven(rid, f.name, sig, ld.locstr(), "only sign / zero tests and decoded uses")
     chk.floor(rid, n, 6, "reads of the string length field")
+
+
+def r8_wrappers(chk, prog, m):
+    """the public entry points hand the caller's length on unchanged"""
+    rid = "C11.R8"
+    chk.rule(rid, "every public function that creates or sets a string hands the internal routine the caller's length unchanged "
+                  "(through integer conversions only) when it takes one, and strlen of the caller's C string when it does not: a "
+                  "length recomputed by a routine that stops at a NUL (strnlen ...) truncates contents with an embedded NUL")
+    INTERNAL = {"_json_object_set_string_len": 2, "_json_object_new_string": 1}
+    n = 0
+    for f in [g for g in m.functions.values() if not g.is_decl and not g.internal]:
+        for i in f.instrs():
+            if i.op != "call" or i.callee not in INTERNAL:
+                continue
+            k = INTERNAL[i.callee]
+            if k >= len(i.ops):
+                continue
+            n += 1
+            chk.touched(f)
+            a = i.ops[k]
+            hops = 0
+            d = f.defs.get(a.v) if a.kind == "reg" else None
+            while d is not None and d.op in ("sext", "zext", "trunc") and hops < 4:
+                a = d.ops[0]
+                d = f.defs.get(a.v) if a.kind == "reg" else None
+                hops += 1
+            ints = [nm for t, nm in f.params if t.startswith("i") and t not in ("i8*",) and not t.endswith("*")]
+            sig = "length handed to %s by %s" % (i.callee, f.name)
+            if a.kind == "reg" and a.v in ints:
+                chk.proven(rid, f.name, sig, i.locstr(), "the caller's length, unchanged")
+            elif a.kind == "int":
+                chk.proven(rid, f.name, sig, i.locstr(), "a constant length")
+            elif d is not None and d.op == "call" and d.callee == "strlen" and not ints:
+                chk.proven(rid, f.name, sig, i.locstr(), "strlen of the caller's C string")
+            elif d is not None and d.op == "call" and d.callee in ("strnlen", "strlen") and ints:
+                chk.refuted(rid, f.name, sig, i.locstr(),
+                            "the caller passes a length, but the length handed on is %s(...): contents with an embedded NUL before that "
+                            "length are cut at the NUL" % d.callee)
+            else:
+                chk.undecided(rid, f.name, sig, i.locstr(), "the length handed on is neither the caller's length nor strlen of its string")
+    chk.floor(rid, n, 3, "public string constructors / setters")
